@@ -1,4 +1,5 @@
-import GqlProofs.Schema.Closed
+import GqlProofs.Schema.NoPanic
+import GqlProofs.Schema.Examples
 /-
   C07 — a loaded schema is closed and consistent.  Property theorems about `Gql.Load.load`
   (the model of `validator.ValidateSchemaDocument` that the driver runs) and the predicates of
@@ -193,3 +194,47 @@ theorem C07_loaded_closed {sd : SchemaDoc} {s : Schema} (h : load sd = .ok s)
     unionMembers := C07_closed_unionMembers h, possibleTypes := C07_closed_possibleTypes h,
     implements := C07_closed_implements h, roots := C07_closed_roots h,
     directiveUses := C07_closed_directiveUses h, keys := C07_closed_keys h }
+
+/- ------------------------------------------------------------------ never panics -/
+
+/-
+  Full statement (FALSE for the code as it is):
+
+    theorem C07_load_no_panic (sd : SchemaDoc) : (load sd).isPanic = false
+
+  `schema.go:65` stores `schema.Types[t]` — nil for an undeclared union member — in `PossibleTypes`,
+  and `isCovariant` (`schema.go:499`) dereferences the entries while an implementer that sorts before the
+  union is being validated.  Witness below; the provable form excludes exactly that situation.
+-/
+
+/-- `interface I { f: U }  type A implements I { f: A }  union U = X` panics (kernel-checked) -/
+theorem C07_load_no_panic_counterexample : ∃ sd, (load sd).isPanic = true :=
+  ⟨Examples.panicDoc, by decide⟩
+
+/-- the loader never panics when every union member named in the document is declared -/
+theorem C07_load_no_panic_partial {sd : SchemaDoc} (hm : MembersDeclared sd) : (load sd).isPanic = false :=
+  load_ne_panic_of_state (fun _ hst => noNil_of_membersDeclared hm hst)
+
+/-- … and, in general, whenever no nil entry was stored in `PossibleTypes` -/
+theorem C07_load_no_panic_of_noNil {sd : SchemaDoc} (h : ∀ st, buildState sd = .ok st → NoNilPossible st) :
+    (load sd).isPanic = false :=
+  load_ne_panic_of_state h
+
+/-- whether the panic happens depends on the ORDER of the union's members: `union U = A | X` is
+    rejected with an error, `union U = X` / `union U = X | A` panic -/
+example : (load Examples.noPanicDoc).isPanic = false ∧ (load Examples.noPanicDoc).isOk = false := by decide
+
+/-- non-vacuity: a document satisfying all hypotheses that loads -/
+example : (load Examples.okDoc).isOk = true := by decide
+
+/- ------------------------------------------------------------------ the input-object query root -/
+
+/-- `input Query { foo: String }` loads, and the loaded schema has the output-typed fields
+    `__schema: __Schema!`, `__type: __Type` inside an input object: `ClosedFieldTypes` fails without the
+    hypothesis `QueryRootNotInput` (the loader does not check the kind of root types) -/
+theorem C07_closed_fieldTypes_counterexample :
+    ∃ sd s, load sd = .ok s ∧ ¬ Spec.ClosedFieldTypes s := by
+  refine ⟨Examples.inputQueryDoc, mkSchema Examples.inputQueryDoc
+    (match buildState Examples.inputQueryDoc with | .ok st => st | .error _ => default) noRoots [], ?_, ?_⟩
+  · rfl
+  · decide
